@@ -17,7 +17,7 @@ EXPLANATION = (
     "constrained to a registry of RFC 7231 numerals on which float() forks. The result must be the canonical form of a "
     "supported type of maximal q (any of them on ties) and the default when none is supported. SPARQL parsing / evaluation, "
     "VALUES placement, GET vs POST and the two web frameworks are inside rdflib / Flask / FastAPI and not applicable.")
-BOUNDS = dict(header_parts="<= 2 (quick: 1 with all 10 media types, 2 with one representative per class)",
+BOUNDS = dict(header_parts="<= 2 with symbolic optional whitespace (1 with all 10 media types, 2 with one representative per class); 3 parts over {type, its synonym, other type} without whitespace",
               qvalues="registry 0.1 0.5 0.50 0.25 0.9 1 1.0 (every weak order on <= 2 parts, equal values with different spellings)",
               ows="symbolic string in [ \\t]*, unbounded", triples_converter="<= 2 records, <= 2 URI synonyms", strings="unbounded, full z3 alphabet")
 OUTSIDE = ["SPARQL parsing and evaluation, _optimize_node / VALUES placement (rdflib)", "GET vs POST, Flask vs FastAPI plumbing, result serialisation",
@@ -45,6 +45,9 @@ def jobs(tier):
     J("header", "header:k=1:all-types", dict(k=1, types="all", ows=True), 600, 5, expect=["supported", "default"])
     J("header", "header:k=2:reps", dict(k=2, types="reps", ows=True), 900, 8, expect=["supported", "default"])
     J("header", "header:empty", dict(k=0), expect=["default"])
+    # three parts over {a supported type, a synonym of the same type, another supported type}, no optional whitespace,
+    # three numerals: a type named twice through a synonym must not disturb the choice
+    J("header", "header:k=3:json-json-csv", dict(k=3, types="dup", ows=False, reg=["0.1", "0.5", "1.0"]), 900, 8, expect=["supported"])
     J("triples", "triples:[[0,1]]", dict(shape=[[0, 1]], custom=False), 600, 5, expect=["subject-bound", "object-bound", "nothing"])
     J("header", "header:k=2:all-types", dict(k=2, types="all", ows=True), 3000, 9, ("thorough",), ["supported", "default"])
     J("triples", "triples:[[0,2],[0,0]]", dict(shape=[[0, 2], [0, 0]], custom=False), 2400, 8, ("thorough",), ["subject-bound", "object-bound", "nothing"])
@@ -74,7 +77,9 @@ def build(job):
         if k == 0:
             eng.expect(utils.handle_header(None) == DEFAULT and utils.handle_header("") == DEFAULT, "missing header does not give the default")
             return "default"
-        alphabet = ALL if params["types"] == "all" else REPS
+        alphabet = {"all": ALL, "reps": REPS, "dup": [SUPPORTED[0], "application/json", SUPPORTED[2]]}[params["types"]]
+        reg = params.get("reg", REG)
+        eng.numerals = reg
         ows = z3.Star(z3.Union(z3.Re(" "), z3.Re("\t")))
         types_, qs, parts = [], [], []
         for i in range(k):
@@ -83,11 +88,11 @@ def build(job):
             types_.append(t)
             if eng.flag(f"hasq{i}"):
                 qv = eng.var(f"q{i}")
-                eng.assume(Or([_s(qv) == z3.StringVal(c) for c in REG]))
+                eng.assume(Or([_s(qv) == z3.StringVal(c) for c in reg]))
                 o1, o2 = eng.var(f"ows{i}a"), eng.var(f"ows{i}b")
                 eng.assume(And(z3.InRe(_s(o1), ows), z3.InRe(_s(o2), ows)) if params["ows"] else And(_s(o1) == z3.StringVal(""), _s(o2) == z3.StringVal("")))
                 qval = z3.RealVal(0)
-                for c in REG:
+                for c in reg:
                     qval = z3.If(_s(qv) == z3.StringVal(c), z3.RealVal(c), qval)
                 part = t + o1 + ";" + o2 + "q=" + qv
             else:
@@ -106,7 +111,14 @@ def build(job):
         if not sup:
             eng.expect(sym_eq(got, DEFAULT), "no supported media type in the header, but the default was not returned")
             return "default"
-        best = [And(_s(got) == z3.StringVal(canon[i]), [qs[j] <= qs[i] for j in sup if j != i]) for i in sup]
+        # a result type may be named twice (directly and through a synonym): its weight is then the larger of the two
+        def weight(i):
+            same = [j for j in sup if canon[j] == canon[i]]
+            w = qs[same[0]]
+            for j in same[1:]:
+                w = z3.If(qs[j] > w, qs[j], w)
+            return w
+        best = [And(_s(got) == z3.StringVal(canon[i]), [weight(j) <= weight(i) for j in sup if canon[j] != canon[i]]) for i in sup]
         eng.check_holds(Or(best), "the negotiated media type is not the canonical form of a supported type with the highest q")
         return "supported"
 
